@@ -73,6 +73,39 @@ def signal(rng, kind=None, max_len=1000):
     return {'sig': sig, 'fs': fs, 'f_range': f_range, 'kind': kind, 'period': period}
 
 
+def short_bursts(rng, max_len=480):
+    """Signal whose rhythm comes in short bursts of 1-5 periods separated by quiet stretches of 4-8 periods (kind
+    'shortburst', not drawn by `signal`): whether a burst survives the detector's minimum-duration rule and whether its
+    cycles form a long enough run then depends on the minimum-cycle count.  In 40 % the rhythm sits near the low edge of
+    the band (period / 0.75), where the detector's minimum duration (counted in periods of the low cut-off) is only about
+    as many rhythm cycles as the count.  Same dict as `signal` plus `burst_periods`."""
+    fs = rng.choice(FS_CHOICES)
+    period = rng.choice([8, 10, 12, 16])
+    n = min(max_len, rng.randint(30, 44) * period + rng.randint(0, period))
+    f0 = fs / period
+    f_range = (round(0.7 * f0, 6), round(1.4 * f0, 6))
+    nrng = np.random.default_rng(rng.getrandbits(32))
+    t = np.arange(n)
+    ph = rng.random() * 2 * math.pi
+    pr = period / 0.75 if rng.random() < 0.4 else float(period)        # period of the rhythm itself
+    base = np.sin(2 * math.pi * t / pr + ph)
+    quiet = rng.choice([0.05, 0.15, 0.3])
+    gate = np.zeros(n)
+    lens = []
+    i = int(rng.randint(3, 6) * pr)
+    while i < n - 2 * pr:
+        ln = rng.choice([1, 2, 2, 3, 3, 4, 5])
+        lens.append(ln)
+        gate[i:i + int(round(ln * pr))] = 1
+        i += int(round((ln + rng.randint(4, 8)) * pr))
+    x = np.cumsum(nrng.standard_normal(n))
+    x = x - np.linspace(x[0], x[-1], n)
+    pink = x / (np.std(x) + 1e-12)
+    sig = base * (quiet + gate) + 0.03 * pink + 0.01 * nrng.standard_normal(n)
+    return {'sig': np.asarray(sig, dtype=float), 'fs': fs, 'f_range': f_range, 'kind': 'shortburst', 'period': period,
+            'burst_periods': lens}
+
+
 BANDS = {'offlo': (0.35, 0.7), 'offhi': (1.4, 2.8), 'narrow': (0.9, 1.1), 'wideband': (0.5, 2.0)}
 
 
